@@ -72,7 +72,7 @@ def dayFrac (j : ℚ) : ℚ := Int.fract (j + 1 / 2)
 theorem dayFrac_nonneg (j : ℚ) : 0 ≤ dayFrac j := Int.fract_nonneg _
 theorem dayFrac_lt_one (j : ℚ) : dayFrac j < 1 := Int.fract_lt_one _
 
-theorem instant_split (j : ℚ) (hj : 0 ≤ j) : j = ((dayNo j : ℤ) : ℚ) - 1 / 2 + dayFrac j := by
+theorem instant_split (j : ℚ) (hj : -1 / 2 ≤ j) : j = ((dayNo j : ℤ) : ℚ) - 1 / 2 + dayFrac j := by
   unfold dayNo dayFrac
   have h0 : 0 ≤ ⌊j + 1 / 2⌋ := Int.floor_nonneg.mpr (by linarith)
   rw [Int.toNat_of_nonneg h0]
@@ -81,7 +81,7 @@ theorem instant_split (j : ℚ) (hj : 0 ≤ j) : j = ((dayNo j : ℤ) : ℚ) - 1
 
 /-- `get_date` of ANY rational instant `j ≥ 0` is the civil date of its day (the `dayNo j`-th civil
     day counted with `Spec.next`), with the day fraction added to the day. -/
-theorem get_date_civil (j : ℚ) (hj : 0 ≤ j) :
+theorem get_date_civil (j : ℚ) (hj : -1 / 2 ≤ j) :
     get_date j = .ok ((civilDay (dayNo j)).1, (civilDay (dayNo j)).2.1,
       ((civilDay (dayNo j)).2.2 : ℚ) + dayFrac j) := by
   conv_lhs => rw [instant_split j hj]
@@ -127,7 +127,7 @@ theorem hms_sum (f : ℚ) : (hourOf f : ℚ) / 24 + (minOf f : ℚ) / 1440 + sec
   unfold secOf; ring
 
 /-- `get_full_date` of any rational instant `j ≥ 0`. -/
-theorem get_full_date_civil (j : ℚ) (hj : 0 ≤ j) :
+theorem get_full_date_civil (j : ℚ) (hj : -1 / 2 ≤ j) :
     get_full_date j = .ok ((civilDay (dayNo j)).1, (civilDay (dayNo j)).2.1, (civilDay (dayNo j)).2.2,
       hourOf (dayFrac j), minOf (dayFrac j), secOf (dayFrac j)) := by
   have hv := civilDay_valid (dayNo j)
@@ -190,7 +190,7 @@ theorem time_mono (f1 f2 : ℚ) (h : f1 ≤ f2) :
 theorem dayNo_mono (j1 j2 : ℚ) (h : j1 ≤ j2) : dayNo j1 ≤ dayNo j2 :=
   Int.toNat_le_toNat (Int.floor_le_floor (by linarith))
 
-theorem dayFrac_mono_of_dayNo_eq (j1 j2 : ℚ) (h0 : 0 ≤ j1) (h : j1 ≤ j2) (he : dayNo j1 = dayNo j2) :
+theorem dayFrac_mono_of_dayNo_eq (j1 j2 : ℚ) (h0 : -1 / 2 ≤ j1) (h : j1 ≤ j2) (he : dayNo j1 = dayNo j2) :
     dayFrac j1 ≤ dayFrac j2 := by
   have s1 := instant_split j1 h0
   have s2 := instant_split j2 (le_trans h0 h)
@@ -243,5 +243,61 @@ theorem check_values_ok (y m : Int) (day h mi s : ℚ) (hy : -4712 ≤ y) (hm1 :
   push_cast at hlim
   unfold check_values get_month_int
   norm_num [c1, c2, c3, c4, c5, c6, c7, c8, c9, hm1, hm12, plt, ple, ofInt, hlim]
+
+/-- `_check_values` decides exactly the documented ranges (numeric month): it returns its arguments when
+    every field is in range and raises ValueError otherwise. -/
+theorem check_values_cases (y m : Int) (day h mi s : ℚ) :
+    check_values y (get_month_int m) day h mi s =
+      if (-4712 ≤ y ∧ 1 ≤ m ∧ m ≤ 12 ∧ 1 ≤ day ∧ day < (monthLen y m : ℚ) + 1 ∧
+          0 ≤ h ∧ h < 24 ∧ 0 ≤ mi ∧ mi < 60 ∧ 0 ≤ s ∧ s < 60)
+      then .ok (y, m, day, h, mi, s) else .error .valueError := by
+  split_ifs with hR
+  · obtain ⟨a1, a2, a3, a4, a5, a6, a7, a8, a9, a10, a11⟩ := hR
+    exact check_values_ok y m day h mi s a1 a2 a3 a4 a5 a6 a7 a8 a9 a10 a11
+  · unfold check_values
+    by_cases c1 : y < -4712
+    · simp only [c1, if_true]
+    simp only [c1, if_false]
+    by_cases c2 : (plt day 1 || ple 32 day) = true
+    · simp only [c2, if_true]
+    simp only [c2]
+    by_cases c3 : (plt h 0 || ple 24 h) = true
+    · simp [c3]
+    simp only [c3]
+    by_cases c4 : (plt mi 0 || ple 60 mi) = true
+    · simp [c4]
+    simp only [c4]
+    by_cases c5 : (plt s 0 || ple 60 s) = true
+    · simp [c5]
+    simp only [c5]
+    unfold get_month_int
+    by_cases c6 : m ≥ 1 ∧ m ≤ 12
+    · simp only [c6, and_self, if_true]
+      by_cases c7 : ple (ofInt (month_limit y m + 1)) day = true
+      · simp [c7]
+      · exfalso
+        apply hR
+        simp only [plt, ple, Bool.or_eq_true, decide_eq_true_eq, not_or, not_lt, not_le, ofInt] at c2 c3 c4 c5 c7
+        have hml : month_limit y m = monthLen y m := by
+          unfold month_limit monthLen
+          have hleap : is_leap y = Spec.leap y := by
+            unfold is_leap Spec.leap calendar_isleap imod
+            by_cases h : y ≥ 1582
+            · have h' : ¬ y < 1582 := by omega
+              simp only [h, h', if_true, if_false, Int.fmod_eq_emod_of_nonneg _ (by decide : (0:Int) ≤ 4),
+                Int.fmod_eq_emod_of_nonneg _ (by decide : (0:Int) ≤ 100), Int.fmod_eq_emod_of_nonneg _ (by decide : (0:Int) ≤ 400)]
+            · have h' : y < 1582 := by omega
+              simp only [h, h', if_true, if_false, Int.fmod_eq_emod_of_nonneg _ (by decide : (0:Int) ≤ 4)]
+              congr 1
+              apply propext
+              omega
+          rw [hleap]
+          obtain ⟨m1, m12⟩ := c6
+          interval_cases m <;> simp [maxdays]
+        rw [hml] at c7
+        push_cast at c7
+        have c7' : day < (monthLen y m : ℚ) + 1 := by simpa using c7
+        exact ⟨by omega, c6.1, c6.2, c2.1, c7', c3.1, c3.2, c4.1, c4.2, c5.1, c5.2⟩
+    · simp [c6]
 
 end Pymeeus.Refine
